@@ -99,6 +99,9 @@ fn step(i: usize, two_outs: bool) -> Step {
     if two_outs {
         s.outs.push(format!("o{}b", i));
     }
+    // Display-only bindings: they must not influence anything but the console.
+    s.hide_success = i == 1;
+    s.hide_progress = i == 2;
     s
 }
 
@@ -170,6 +173,88 @@ pub fn family_g(n: usize, options: &[Option<EdgeKind>]) -> Vec<Scenario> {
                     s.j = j;
                     s.note = format!("G{} edges={:?} phony={:?} rev={} j={}", n, edges, phony, rev, j);
                     out.push(s);
+                }
+            }
+        }
+    }
+    out
+}
+
+/// Gn: like G, but the steps have no source input of their own: every input
+/// of a step is another step's output (a step with exactly one ordering input
+/// exists only here), and steps without any edge have no inputs at all.
+pub fn family_g_nosrc(n: usize, options: &[Option<EdgeKind>]) -> Vec<Scenario> {
+    let mut out = family_g(n, options);
+    for s in out.iter_mut() {
+        for st in s.project.steps.iter_mut() {
+            st.ins.retain(|(_, f)| !f.starts_with('s'));
+        }
+        s.note = format!("{} nosrc", s.note);
+    }
+    out
+}
+
+/// PX: more steps of one bounded pool than its depth, next to steps of the
+/// default pool that compete for the -j slots.
+pub fn family_px() -> Vec<Scenario> {
+    let mut out = Vec::new();
+    for depth in [1usize, 2] {
+        for pooled in [depth + 1, depth + 2] {
+            for plain in [1usize, 2] {
+                for j in [depth + 1, depth + 2] {
+                    for order in 0..3usize {
+                        for tail in [false, true] {
+                            let mut steps = Vec::new();
+                            let mk = |name: String, pool: bool| Step {
+                                outs: vec![name.clone()],
+                                cmdline: name.to_uppercase(),
+                                ins: vec![(EdgeKind::Explicit, format!("src_{}", name))],
+                                pool: if pool { Some("bounded".to_string()) } else { None },
+                                ..Default::default()
+                            };
+                            let ps: Vec<Step> = (0..pooled).map(|i| mk(format!("p{}", i), true)).collect();
+                            let ds: Vec<Step> = (0..plain).map(|i| mk(format!("d{}", i), false)).collect();
+                            match order {
+                                0 => {
+                                    steps.extend(ds.clone());
+                                    steps.extend(ps.clone());
+                                }
+                                1 => {
+                                    steps.extend(ps.clone());
+                                    steps.extend(ds.clone());
+                                }
+                                _ => {
+                                    // interleaved
+                                    let mut a = ps.clone().into_iter();
+                                    let mut b = ds.clone().into_iter();
+                                    loop {
+                                        let x = a.next();
+                                        let y = b.next();
+                                        if x.is_none() && y.is_none() {
+                                            break;
+                                        }
+                                        steps.extend(x);
+                                        steps.extend(y);
+                                    }
+                                }
+                            }
+                            if tail {
+                                // a default-pool step that becomes ready when the last plain step finishes
+                                let mut t = mk("dtail".to_string(), false);
+                                t.ins.push((EdgeKind::Explicit, format!("d{}", plain - 1)));
+                                steps.push(t);
+                            }
+                            let p = Project {
+                                pools: vec![("bounded".into(), depth)],
+                                steps,
+                                ..Default::default()
+                            };
+                            let mut s = Scenario::new(p);
+                            s.j = j;
+                            s.note = format!("PX depth={} pooled={} plain={} j={} order={} tail={}", depth, pooled, plain, j, order, tail);
+                            out.push(s);
+                        }
+                    }
                 }
             }
         }
@@ -651,6 +736,16 @@ pub fn family_s() -> Vec<Scenario> {
         steps: vec![multi.steps[0].clone(), multi.steps[2].clone(), multi.steps[1].clone(), multi.steps[3].clone()],
         ..Default::default()
     };
+    // 2c. two consumers that each use both outputs of the producer
+    let multi_2x2 = Project {
+        steps: vec![
+            multi.steps[0].clone(),
+            mk("x", vec![e("p1"), e("p2")], None),
+            mk("y", vec![e("p1"), e("p2")], None),
+            mk("z", vec![e("x"), e("y")], None),
+        ],
+        ..Default::default()
+    };
     // 3. restat chain in a pool: z -> y -> w with x independent; x, y, w in
     //    a depth-1 pool.
     let restat_pool = Project {
@@ -687,7 +782,25 @@ pub fn family_s() -> Vec<Scenario> {
         ],
         ..Default::default()
     };
-    for (name, p) in [("diamond", &diamond), ("multi", &multi), ("multi-b", &multi_b), ("fan", &fan)] {
+    // multi-output shapes from a built tree: every subset of sources touched
+    // (incl. none: the repeated build)
+    for (name, p) in [("multi", &multi), ("multi-b", &multi_b), ("multi-2x2", &multi_2x2)] {
+        for ev in 0..(1usize << 4) {
+            for j in [1usize, 2, 3] {
+                let mut s = Scenario::new((*p).clone());
+                s.prebuilt = true;
+                for (i, n) in ["p", "x", "y", "z"].iter().enumerate() {
+                    if ev & (1 << i) != 0 {
+                        s.edits.push(Edit::Touch(format!("src_{}", n)));
+                    }
+                }
+                s.j = j;
+                s.note = format!("S {} prebuilt edits={:?} j={}", name, s.edits, j);
+                out.push(s);
+            }
+        }
+    }
+    for (name, p) in [("diamond", &diamond), ("multi", &multi), ("multi-b", &multi_b), ("multi-2x2", &multi_2x2), ("fan", &fan)] {
         for j in [1usize, 2, 3] {
             let mut s = Scenario::new(p.clone());
             s.j = j;
